@@ -452,7 +452,12 @@ pub fn gen_indent(rng: &mut Rng) -> PIndent {
 pub fn gen_opts(rng: &mut Rng) -> POpts {
 	let mut o = POpts::compact();
 	for i in 0..N_FIELDS {
-		*o.field_mut(i) = if rng.chance(1, 2) { rng.below(2) } else { rng.below(4) };
+		*o.field_mut(i) = match rng.below(40) {
+			0 => [31, 32, 33, 64, 100][rng.below(5)],
+			1 => rng.range(4, 12),
+			2..=20 => rng.below(2),
+			_ => rng.below(4),
+		};
 	}
 	o.indent = gen_indent(rng);
 	o
